@@ -361,23 +361,23 @@ SUBCHECKS = {"sampled": check_sampled, "exhaustive": check_schedule}
 
 
 def run(ctx: Ctx):
-    small = [[1], [2], [3], [1, 1], [2, 1], [1, 2]] if ctx.quick else [[1], [2], [3], [1, 1], [2, 1], [1, 2], [2, 2], [1, 1, 1],
-                                                                         [3, 1], [1, 3]]
+    # (session list, [(agent, loss script, eps)]) - sizes measured on the repaired tree: [1] 21, [2] ~410, [3] ~1350,
+    # [1,1] ~4300, [1,2] ~3500, [2,1] ~49000 schedules per variant
+    S0, E1, Z2, N3, X1 = ("scripted", 0, 0.3), ("eps", 1, 0.3), ("scripted", 2, 0.3), ("scripted", 3, 0.3), ("eps", 1, 1.0)
+    plan = [([1], [S0, E1, Z2, N3, X1]), ([2], [S0, E1, Z2, N3, X1]), ([3], [S0]), ([1, 1], [S0, N3, X1]), ([1, 2], [S0, E1])]
+    if not ctx.quick:
+        plan = [([1], [S0, E1, Z2, N3, X1]), ([2], [S0, E1, Z2, N3, X1]), ([3], [S0, E1]), ([1, 1], [S0, E1, Z2, N3, X1]),
+                ([1, 2], [S0, E1, Z2, N3]), ([2, 1], [S0, E1, N3]), ([1, 1, 1], [S0]), ([2, 2], [S0])]
     ok = True
-    for sessions in small:
-        variants = (("scripted", 0),)
-        if len(sessions) <= 2 and sum(sessions) <= 3:
-            variants = (("scripted", 0), ("eps", 1), ("scripted", 2), ("scripted", 3))
-            if ctx.quick and sum(sessions) == 3 and len(sessions) == 2 and sessions[0] == 2:
-                variants = (("scripted", 0), ("eps", 1))   # [2,1] has ~10 000 schedules per script: two scripts in the quick tier
-        for agent, losses in variants:
-            if not explore(ctx, scenario(sessions, agent=agent, losses=losses)):
+    for sessions, variants in plan:
+        for agent, losses, eps in variants:
+            # eps = 1: an agent that always explores - every choice comes straight from its random stream, so any dependence
+            # of that stream on thread timing (e.g. re-seeding racing with the first draw) shows in the sampler sequence
+            if ok and not explore(ctx, scenario(sessions, agent=agent, losses=losses, eps=eps, seed=3 if eps == 1.0 else 1)):
                 ok = False
-                break
-        if not ok:
-            break
     for sessions, fault in (([2, 1], [0, 1, "sampler"]), ([2, 1], [0, 1, "loss"]), ([1, 2], [1, 0, "loss"]), ([1, 2], [1, 1, "sampler"])):
         if ok and not explore(ctx, scenario(sessions, fault=fault)):
             ok = False
-    ctx.exhaustive_axes[f"all schedules of session lists {small} (+ 4 scenarios with a failing batch)"] = ok
+    ctx.exhaustive_axes[f"all schedules of {[(p[0], len(p[1])) for p in plan]} (session list, variants) + 4 scenarios with a "
+                        "failing batch"] = ok
     drive(ctx, "sampled", sampled_cases(), check_sampled, ctx.n(1600, 40000))
